@@ -7,4 +7,6 @@ git -C "$wt" apply "$wt/_seed/$n/patch.diff" || { echo "$prop seed $n: PATCH-DOE
 out=$(cd /verif && VERIF_REPO="$wt" ./check $prop --tier $tier 2>&1); rc=$?
 git -C "$wt" checkout -q -- .
 echo "$out" | grep -E '^(VIOLATION|OK|KNOWN|proof gate|correspondence|search)' | head -8
-if [ $rc -ne 0 ]; then echo "== $prop seed $n: CAUGHT"; else echo "== $prop seed $n: MISSED"; fi
+if [ $rc -eq 0 ]; then echo "== $prop seed $n: MISSED"
+elif echo "$out" | grep -q '^VIOLATION.*replay=[^ ]*$'; then echo "== $prop seed $n: CAUGHT"
+else echo "== $prop seed $n: CAUGHT-WITHOUT-INPUT"; fi
